@@ -1,9 +1,41 @@
 #include "sim/simalloc.h"
 #include "sim/kernel.h"
 #include <cstdlib>
+#include <cstring>
+#include <cstdio>
+#include <execinfo.h>
+extern "C" void __sanitizer_symbolize_pc(void *pc, const char *fmt, char *out_buf, size_t out_buf_size) __attribute__((weak));
 
 namespace sim { Alloc A; }
 using namespace sim;
+
+static void note_stack(void *p) {
+	if (!A.trace || !p) return;
+	void *pcs[14];
+	int n = backtrace(pcs, 14);
+	A.stacks[p].assign(pcs, pcs + (n > 0 ? n : 0));
+}
+
+namespace sim {
+std::string alloc_site(void *p) {
+	auto it = A.stacks.find(p);
+	if (it == A.stacks.end()) return "?";
+	std::string chain;
+	int shown = 0;
+	for (void *pc : it->second) {
+		char buf[512] = "";
+		if (__sanitizer_symbolize_pc) __sanitizer_symbolize_pc((char *)pc - 1, "%f", buf, sizeof buf);
+		std::string f = buf;
+		if (f.empty() || f == "??" ) continue;
+		if (f.find("ksisim_") != std::string::npos || f == "KSI_malloc" || f == "KSI_calloc" || f == "note_stack" || f.find("backtrace") != std::string::npos) continue;
+		if (f.find("eng::") != std::string::npos || f.find("run::") != std::string::npos || f == "main") break;
+		if (shown) chain += "<";
+		chain += f;
+		if (++shown >= (getenv("VERIF_SITE_DEPTH") ? atoi(getenv("VERIF_SITE_DEPTH")) : 3)) break;
+	}
+	return chain.empty() ? "?" : chain;
+}
+}
 
 static bool should_fail() {
 	A.count++;
@@ -11,6 +43,25 @@ static bool should_fail() {
 	if ((A.fail_from && A.count >= A.fail_from) || A.fail_at.count(A.count)) {
 		A.fired++;
 		K.count("fault.alloc_fail");
+		if (A.trace) {
+			void *pcs[12]; int n = backtrace(pcs, 12);
+			std::string chain; int shown = 0;
+			for (int i = 1; i < n && shown < 2; i++) {
+				char buf[256] = ""; if (__sanitizer_symbolize_pc) __sanitizer_symbolize_pc((char *)pcs[i] - 1, "%f", buf, sizeof buf);
+				std::string f = buf;
+				if (f.empty() || f == "??" || f.find("ksisim_") != std::string::npos || f == "KSI_malloc" || f == "KSI_calloc" || f == "should_fail") continue;
+				if (f.find("eng::") != std::string::npos) break;
+				if (shown) chain += "<";
+				chain += f; shown++;
+			}
+			A.last_fail_site = chain;
+		}
+		if (getenv("VERIF_FAILSITE")) {
+			void *pcs[16]; int n = backtrace(pcs, 16);
+			fprintf(stderr, "FAILSITE alloc #%llu:", (unsigned long long)A.count);
+			for (int i = 1; i < n; i++) { char buf[256] = ""; if (__sanitizer_symbolize_pc) __sanitizer_symbolize_pc((char *)pcs[i] - 1, "%f", buf, sizeof buf); fprintf(stderr, " < %s", buf); }
+			fprintf(stderr, "\n");
+		}
 		return true;
 	}
 	return false;
@@ -21,14 +72,14 @@ extern "C" {
 void *ksisim_malloc(size_t n) {
 	if (should_fail()) return NULL;
 	void *p = malloc(n);
-	if (p) A.live[p] = ++A.serial;
+	if (p) { A.live[p] = ++A.serial; note_stack(p); }
 	return p;
 }
 
 void *ksisim_calloc(size_t a, size_t b) {
 	if (should_fail()) return NULL;
 	void *p = calloc(a, b);
-	if (p) A.live[p] = ++A.serial;
+	if (p) { A.live[p] = ++A.serial; note_stack(p); }
 	return p;
 }
 
@@ -40,6 +91,7 @@ void ksisim_free(void *p) {
 		// let ASan classify it (double free / invalid free) on the real free below
 	} else {
 		A.live.erase(it);
+		if (A.trace) A.stacks.erase(p);
 	}
 	free(p);
 }
